@@ -32,6 +32,10 @@ func pollScenarios() []*scen {
 			Threads: map[string][]string{"p1": {"refresh"}, "p2": {"refresh"}}, Events: []string{"srv-put:a", "srv-back:a", "cancel:p1"}},
 		{Name: "S10 two declared names, a reader each, two polls with failing requests", Thorough: true, Declared: []string{"a", "b"}, Outcomes: []string{"ok", "fail"},
 			Threads: map[string][]string{"ra": {"secret:a", "read:a", "read:a"}, "rb": {"secret:b", "read:b"}, "p1": {"refresh"}, "p2": {"refresh"}}, Events: []string{"srv-put:a", "srv-put:b"}},
+		{Name: "E reader || Refresh whose caller is cancelled || second Refresh || two server changes", Declared: []string{"a"}, CtxFor: map[string]string{"p1": "cancel"},
+			Threads: map[string][]string{"reader": {"secret:a", "read:a", "read:a", "read:a"}, "p1": {"refresh"}, "p2": {"refresh"}}, Events: []string{"srv-put:a", "srv-put:a", "cancel:p1"}},
+		{Name: "E2 reader || cancelled Refresh || second Refresh || scripted environment (change, cancel, change)", Declared: []string{"a"}, CtxFor: map[string]string{"p1": "cancel"},
+			Threads: map[string][]string{"reader": {"secret:a", "read:a", "read:a", "read:a"}, "p1": {"refresh"}, "p2": {"refresh"}, "env": {"srvput:a", "cancelctx:p1", "srvput:a"}}},
 		{Name: "C Refresh with failing requests, then convergence", Declared: []string{"a", "b"}, Outcomes: []string{"ok", "fail"},
 			Threads: map[string][]string{"p1": {"refresh"}, "reader": {"secret:a", "read:a", "read:a"}}, Events: []string{"srv-put:a"}},
 	}
@@ -89,6 +93,11 @@ func lookupTimingScenarios() []*scen {
 		{Name: "L5 caller without deadline behind a caller with a 10m deadline, service never answers", Declared: []string{"d"}, UseTime: true, Horizon: 21 * time.Minute,
 			OutcomesFor: map[string][]string{"u": {"hang"}}, CtxFor: map[string]string{"a": "10m"},
 			Threads: map[string][]string{"a": {"lookup:u"}, "b": {"lookup:u"}}},
+		{Name: "L7 NewUpdater without deadline, service never answers", Declared: []string{"d"}, UseTime: true, Horizon: m16,
+			OutcomesFor: map[string][]string{"u": {"hang"}}, Threads: map[string][]string{"a": {"upd:u"}}},
+		{Name: "L8 NewUpdater without deadline behind a LookupSecret with a 10m deadline, service answers or hangs", Declared: []string{"d"}, UseTime: true, Horizon: m16,
+			OutcomesFor: map[string][]string{"u": {"ok", "hang"}}, CtxFor: map[string]string{"a": "10m"},
+			Threads: map[string][]string{"a": {"lookup:u"}, "b": {"upd:u", "updget:u"}}},
 		{Name: "L6 three callers (none, 1s, cancelled), service answers or hangs", Declared: []string{"d"}, UseTime: true, Horizon: m16,
 			OutcomesFor: map[string][]string{"u": {"ok", "hang"}}, CtxFor: map[string]string{"b": "1s", "c": "cancel"}, Events: []string{"cancel:c"},
 			Threads: map[string][]string{"a": {"lookup:u", "read:u"}, "b": {"lookup:u"}, "c": {"lookup:u"}}},
